@@ -88,3 +88,57 @@ def abstract_of(tables, cmap, tmap, tscale=1):
         ind_parent_tags=[[itags[p] if 0 <= p < len(itags) else -1 for p in r.parents] for r in t.individuals],
     )
     return a
+
+
+# ------------------------------------------------------------------------------------------------------------------
+# ragged metadata: the same operation on the same tables with the metadata of a random subset of rows removed.
+# Metadata never influences what an operation does, so output row k of the ragged run must be output row k of the tagged
+# run with its metadata kept or emptied according to the *source* row it came from (the tag names the source row).
+RAGGED_TABLES = ("nodes", "edges", "sites", "mutations", "migrations", "individuals", "populations")
+
+
+def ragged_variant(tables, rng, p=0.5):
+    """copy of `tables` in which each row's metadata is emptied with probability p; returns (copy, cleared) where cleared[table] is
+    the set of metadata byte strings (tags) that were removed"""
+    t = tables.copy()
+    cleared = {}
+    for name in RAGGED_TABLES:
+        tab = getattr(t, name)
+        if not len(tab) or not len(tab.metadata):
+            cleared[name] = set()
+            continue
+        md = [bytes(r.metadata) for r in tab]
+        gone = set()
+        for i in range(len(md)):
+            if md[i] and rng.random() < p:
+                gone.add(md[i])
+                md[i] = b""
+        tab.packset_metadata(md)
+        cleared[name] = gone
+    return t, cleared
+
+
+def _norm(v):
+    if isinstance(v, np.ndarray):
+        return tuple(v.tolist())
+    if isinstance(v, float) and v != v:
+        return "nan"
+    return v
+
+
+def ragged_consistent(out_tagged, out_ragged, cleared, tables=RAGGED_TABLES):
+    """None if consistent, else a description of the first difference"""
+    import dataclasses
+    for name in tables:
+        a, b = getattr(out_tagged, name), getattr(out_ragged, name)
+        if len(a) != len(b):
+            return "%s: %d rows with full metadata, %d rows with ragged metadata" % (name, len(a), len(b))
+        for k, (ra, rb) in enumerate(zip(a, b)):
+            for f in dataclasses.fields(ra):
+                if f.name == "metadata":
+                    want = b"" if bytes(ra.metadata) in cleared.get(name, ()) else bytes(ra.metadata)
+                    if bytes(rb.metadata) != want:
+                        return "%s row %d: metadata %r, expected %r (ragged metadata column)" % (name, k, bytes(rb.metadata), want)
+                elif _norm(getattr(ra, f.name)) != _norm(getattr(rb, f.name)):
+                    return "%s row %d: column %s differs between the run with full and with ragged metadata" % (name, k, f.name)
+    return None
